@@ -17,6 +17,12 @@ FS_ATTRS = {
     "stat", "lstat", "glob", "rglob", "iterdir", "samefile", "resolve",
 }
 FS_MODULES = {"os", "shutil", "tempfile", "pickle", "pathlib", "uuid", "hashlib", "marshal", "shelve", "sqlite3", "subprocess"}
+# calls that only NAME the caller (process / thread / moment): no file-system effect, no op of the protocol; a temporary
+# name built from them instead of uuid.uuid4() is not fresh per run (Gen.tmpNameHasUuid4 = false, `tmp_name_fresh` breaks)
+NAMING_CALLS = {
+    ("os", "getpid"), ("os", "getppid"), ("os", "getuid"), ("os", "getlogin"), ("threading", "get_ident"), ("threading", "get_native_id"),
+    ("time", "time"), ("time", "time_ns"), ("time", "monotonic"), ("time", "monotonic_ns"), ("socket", "gethostname"), ("getpass", "getuser"),
+}
 COMPUTE_CALLS = [("parse", "source_to_atok"), ("parse", "atok_to_symbol_table"), ("intermediate", "translate")]
 
 
@@ -95,6 +101,8 @@ class Skeleton:
             if _is_mod_call(node, "uuid", "uuid4"):
                 self.emit(".freshUid", fl)
                 return "uuid4"
+            if isinstance(f, ast.Attribute) and isinstance(f.value, ast.Name) and (f.value.id, f.attr) in NAMING_CALLS and not node.args and not node.keywords:
+                return "naming"
             if _is_mod_call(node, "pickle", "load"):
                 if not (len(node.args) == 1 and isinstance(node.args[0], ast.Name) and self.env.get(node.args[0].id) == "fid_r"):
                     raise ExtractError(f"pickle.load from an unknown handle: {ast.unparse(node)}")
@@ -122,15 +130,19 @@ class Skeleton:
                     self.emit(f".mkdir {'true' if eok else 'false'}", fl)
                     return None
                 if f.attr in ("rename", "replace"):
-                    if len(node.args) != 1:
-                        raise ExtractError(f"rename with {len(node.args)} arguments")
-                    self.emit(f".rename {self.pathe(recv, 'rename')} {self.pathe(node.args[0], 'rename target')}", fl)
+                    tgts = list(node.args) + [k.value for k in node.keywords if k.arg == "target"]
+                    if len(tgts) != 1 or len(node.keywords) + len(node.args) != 1:
+                        raise ExtractError(f"rename of an unknown shape: {ast.unparse(node)}")
+                    self.emit(f".rename {self.pathe(recv, 'rename')} {self.pathe(tgts[0], 'rename target')}", fl)
                     return None
                 if f.attr == "unlink":
                     mok = _const_bool(_kw(node, "missing_ok")) is True
                     self.emit(f".unlink {self.pathe(recv, 'unlink')} {'true' if mok else 'false'}", fl)
                     return None
-                if f.attr == "with_suffix" and isinstance(recv, ast.Name) and self.env.get(recv.id) == "final":
+                if f.attr in ("with_suffix", "with_name") and isinstance(recv, ast.Name) and self.env.get(recv.id) == "final":
+                    # the temporary path: a sibling of the final path whose name ends in ".tmp"
+                    if len(node.args) != 1 or node.keywords:
+                        raise ExtractError(f"temporary name of an unknown shape: {ast.unparse(node)}")
                     kinds = [self.scan(a, fl) for a in node.args]
                     arg = node.args[0] if node.args else None
                     ends_tmp = (
@@ -434,8 +446,33 @@ def skeleton(repo: pathlib.Path) -> Skeleton:
     return sk
 
 
+def _source_attr(call: ast.Call, fn: ast.FunctionDef) -> str:
+    """The attribute of ``self`` a ``_compute_*`` call is fed with: ``self.<a>`` directly, or a local/parameter that the
+    same function stores as ``self.<a> = <name>``; anything else is kept as its source text (and will match nothing)."""
+    if len(call.args) != 1 or call.keywords:
+        return "?" + ast.unparse(call)[:60]
+    arg = call.args[0]
+    if isinstance(arg, ast.Attribute) and isinstance(arg.value, ast.Name) and arg.value.id == "self":
+        return arg.attr
+    if isinstance(arg, ast.Name):
+        stored = sorted(
+            {
+                t.attr
+                for n in ast.walk(fn)
+                if isinstance(n, ast.Assign) and isinstance(n.value, ast.Name) and n.value.id == arg.id
+                for t in n.targets
+                if isinstance(t, ast.Attribute) and isinstance(t.value, ast.Name) and t.value.id == "self"
+            }
+        )
+        if len(stored) == 1:
+            return stored[0]
+    return "?" + ast.unparse(arg)[:60]
+
+
 def pickle_hooks(repo: pathlib.Path) -> List[Dict[str, Any]]:
-    """Shape of __getstate__/__setstate__ of every class of intermediate/_types.py that defines them."""
+    """Shape of __getstate__/__setstate__ of every class of intermediate/_types.py that defines them.
+    A recomputation is named ``<_compute_fn><-<source attribute>``: the same function fed with another list (e.g. the
+    concrete descendants instead of the descendants) is a different recomputation."""
     mod = _parse(repo, "aas_core_codegen/intermediate/_types.py")
     hooks = []
     for cls in mod.body:
@@ -458,7 +495,7 @@ def pickle_hooks(repo: pathlib.Path) -> List[Dict[str, Any]]:
             if isinstance(n, ast.Call) and isinstance(n.func, ast.Name) and n.func.id == "setattr":
                 if not (len(n.args) == 3 and isinstance(n.args[1], ast.Constant) and isinstance(n.args[2], ast.Call) and isinstance(n.args[2].func, ast.Attribute)):
                     raise ExtractError(f"{cls.name}.__setstate__: setattr of an unknown shape at line {n.lineno}")
-                recomputed.append((n.lineno, (n.args[1].value, n.args[2].func.attr)))
+                recomputed.append((n.lineno, (n.args[1].value, n.args[2].func.attr + "<-" + _source_attr(n.args[2], fns["__setstate__"]))))
         recomputed = [x for _, x in sorted(recomputed)]
         assigned, idsets = [], []
         for name, fn in fns.items():
@@ -472,8 +509,9 @@ def pickle_hooks(repo: pathlib.Path) -> List[Dict[str, Any]]:
                             idsets.append(t.attr)
                         v = n.value
                         if isinstance(v, ast.Call) and isinstance(v.func, ast.Attribute) and v.func.attr.startswith("_compute_"):
-                            if (t.attr, v.func.attr) not in assigned:
-                                assigned.append((t.attr, v.func.attr))
+                            pair = (t.attr, v.func.attr + "<-" + _source_attr(v, fn))
+                            if pair not in assigned:
+                                assigned.append(pair)
         hooks.append({"cls": cls.name, "popped": popped, "recomputed": recomputed, "assigned": assigned, "idSetFields": idsets})
     if not hooks:
         raise ExtractError("no class of intermediate/_types.py defines __getstate__")
